@@ -1091,7 +1091,10 @@ func handleState(fr *FrameHeader, strm *Stream) {
 	case StreamStateReserved:
 		// TODO: ...
 	case StreamStateOpen:
-		if fr.Flags().Has(FlagEndStream) {
+		// END_STREAM exists on HEADERS and DATA frames only. The same bit on
+		// any other frame has no meaning and is ignored (RFC 7540 4.1): a
+		// PRIORITY or WINDOW_UPDATE frame does not end the request.
+		if (fr.Type() == FrameHeaders || fr.Type() == FrameData) && fr.Flags().Has(FlagEndStream) {
 			strm.SetState(StreamStateHalfClosed)
 		} else if fr.Type() == FrameResetStream {
 			strm.SetState(StreamStateClosed)
